@@ -959,6 +959,7 @@ let dispatch line =
   | "V" :: args -> v_line args
   | "X" :: args -> x_line args
   | ["N"; "pfn"; h] -> "model=" ^ hex_of_str (public_field_name (str_of_hex h))
+  | "F" :: _ | "RV" :: _ -> "SKIP not-modelled-line"
   | "Y" :: args -> y_line args
   | "I" :: args -> i_line args
   | "R" :: args -> r_line args
